@@ -408,7 +408,14 @@ class MinFlowDecomp(pathmodel.AbstractPathModelDAG): # Note that we inherit from
     def _get_lowerbound_with_min_gen_set(self) -> int:
 
         min_gen_set_start_time = time.perf_counter()
-        all_weights = list(set({self.G.edges[e][self.flow_attr] for e in self.G.edges() if self.flow_attr in self.G.edges[e]}))
+        # The generating set must generate only the flow values that have to be decomposed (i.e. not those of ignored edges),
+        # and its total is the flow out of the sources, which is unknown if such an edge is ignored or has no flow value.
+        for v in self.G.nodes():
+            if self.G.in_degree(v) == 0:
+                for e in self.G.out_edges(v):
+                    if e in self.edges_to_ignore or self.flow_attr not in self.G.edges[e]:
+                        return None
+        all_weights = list(set({self.G.edges[e][self.flow_attr] for e in self.G.edges() if self.flow_attr in self.G.edges[e] and e not in self.edges_to_ignore}))
         # Get the source_flow as the sum of the flow values on all the edges exiting the source nodes
         # (i.e., nodes with in-degree 0)
         source_flow = self._get_source_flow()
